@@ -25,13 +25,20 @@
     characterised without ghost state as "pc in {MgInTerm, MgFinished}, ending Terminate, never
     told to stop") and [TRI] (the trace monitors, as functions of the state).
 
+    Model of the repaired merge.rs (a member publishes its talkback before [ended.load()], every
+    party that ends the output takes a member's talkback out of its cell before disposing it):
+    [mgs_tbs] starts true for the members and a greeting or delivering member has
+    [mgs_tbs = negb mgs_stopped] (clause by clause in [TIc]).  The member's own disposal at MgAtEndedLoad is dead in this model
+    ([merge_threads_self_dispose_dead]) because the store and the swaps are one step.
+
     Findings.
     - In this model no data delivery begins after the Error began: the failing member's store,
       the Terminate calls to all siblings whose slot is set and the begin of the Error delivery
       are one step, a sibling tests "told to stop" in the same step in which its next delivery
-      begins, and a sibling whose slot is not yet set reads [ended = true] next.  So
-      [TvAfterTerminal] is unreachable and the full check holds in the failing case too (also
-      confirmed by [vm_compute] over all 2^14 schedule prefixes of n=2, qs 0 = [VN 1; VN 3],
+      begins, and a sibling that is still greeting (its slot is set from the start now) is told
+      to stop in that step as well and reads [ended = true] next.  So
+      [TvAfterTerminal] is unreachable and the full check holds in the failing case too (for the
+      model before the repair also confirmed by [vm_compute] over all 2^14 schedule prefixes of n=2, qs 0 = [VN 1; VN 3],
       fins 1 = FinErr 101).  What CAN happen, and what [merge_check] does not flag, is that the
       Error begins while a sibling's data delivery is still in progress ([error_during_data]).
     - The hypothesis "at most one failing member" is necessary: with two failing members both
@@ -68,13 +75,21 @@ Inductive mstep (n : nat) : mg_state -> nat -> mg_state -> Prop :=
     mg_pcv (th t) = MgFinished ->
     mstep n (St st ec en tbs stp th tr) t (St st ec en tbs stp th tr)
 | ms_load_ended st ec tbs stp th tr t q f :
-    th t = Th MgAtEndedLoad q f ->
+    (* the output ended during the greeting and the talkback is still in its cell: the member
+       takes it out and disposes itself *)
+    th t = Th MgAtEndedLoad q f -> tbs t = true ->
     mstep n (St st ec true tbs stp th tr) t
-      (St st ec true tbs (upd stp t true) (upd th t (Th MgFinished q f)) ((t, TUp t UT) :: tr))
+      (St st ec true (upd tbs t false) (upd stp t true) (upd th t (Th MgFinished q f))
+          ((t, TUp t UT) :: tr))
+| ms_load_taken st ec tbs stp th tr t q f :
+    (* the ending party already took the talkback (and disposed the member) *)
+    th t = Th MgAtEndedLoad q f -> tbs t = false ->
+    mstep n (St st ec true tbs stp th tr) t
+      (St st ec true tbs stp (upd th t (Th MgFinished q f)) tr)
 | ms_load_ok st ec tbs stp th tr t q f :
     th t = Th MgAtEndedLoad q f ->
     mstep n (St st ec false tbs stp th tr) t
-      (St st ec false (upd tbs t true) stp (upd th t (Th MgAtStartInc q f)) tr)
+      (St st ec false tbs stp (upd th t (Th MgAtStartInc q f)) tr)
 | ms_start_first ec en tbs stp th tr t q f :
     th t = Th MgAtStartInc q f ->
     mstep n (St 0 ec en tbs stp th tr) t
@@ -111,36 +126,47 @@ Inductive mstep (n : nat) : mg_state -> nat -> mg_state -> Prop :=
     th t = Th pc q f -> pc = MgInTerm \/ pc = MgInErr ->
     mstep n (St st ec en tbs stp th tr) t
       (St st ec en tbs stp (upd th t (Th MgFinished q f)) ((t, TEnd) :: tr))
-| ms_endedstore st ec en tbs stp th tr t e q f stp' tr1 :
+| ms_endedstore st ec en tbs stp th tr t e q f tbs' stp' tr1 :
     th t = Th (MgAtEndedStore e) q f ->
     (forall j, stp' j = stp j || ((j <? n) && negb (j =? t) && tbs j)) ->
+    (forall j, tbs' j = tbs j && negb ((j <? n) && negb (j =? t))) ->
     qext t tr tr1 ->
     mstep n (St st ec en tbs stp th tr) t
-      (St st ec true tbs stp' (upd th t (Th MgInErr q f)) ((t, TBegin (DE e)) :: tr1)).
+      (St st ec true tbs' stp' (upd th t (Th MgInErr q f)) ((t, TBegin (DE e)) :: tr1)).
 
 (** what [mg_stop_siblings] does *)
 Lemma stop_siblings_spec k t s :
   let s' := mg_stop_siblings k t s in
   mgs_start s' = mgs_start s /\ mgs_endc s' = mgs_endc s /\ mgs_ended s' = mgs_ended s /\
-  mgs_tbs s' = mgs_tbs s /\ mgs_th s' = mgs_th s /\
+  (forall j, mgs_tbs s' j = mgs_tbs s j && negb ((j <? k) && negb (j =? t))) /\
+  mgs_th s' = mgs_th s /\
   (forall j, mgs_stopped s' j = mgs_stopped s j || ((j <? k) && negb (j =? t) && mgs_tbs s j)) /\
   qext t (mgs_tr s) (mgs_tr s').
 Proof.
   induction k as [|k IH]; cbn [mg_stop_siblings].
-  - repeat split; try constructor. intros j. cbn. now rewrite orb_false_r.
+  - repeat split; try constructor; intros j; cbn.
+    + now rewrite andb_true_r.
+    + now rewrite orb_false_r.
   - cbv zeta in IH. destruct IH as (H1 & H2 & H3 & H4 & H5 & H6 & H7).
     assert (Hk : forall j, (j <? S k) = (j <? k) || (j =? k)).
     { intros j. destruct (Nat.ltb_spec j (S k)), (Nat.ltb_spec j k), (Nat.eqb_spec j k); cbn; auto; lia. }
+    assert (Hkk : (k <? k) = false) by (apply Nat.ltb_irrefl).
     destruct (negb (k =? t) && mgs_tbs s k) eqn:E; cbn -[Nat.ltb].
     + repeat split; auto.
       * intros j. rewrite Hk. unfold upd. destruct (Nat.eqb_spec j k) as [->|Hj].
-        -- destruct (k <? k), (negb (k =? t)), (mgs_tbs s k), (mgs_stopped s k); cbn in *; congruence.
+        -- rewrite Hkk. destruct (negb (k =? t)), (mgs_tbs s k); cbn in *; congruence.
+        -- rewrite H4. now rewrite orb_false_r.
+      * intros j. rewrite Hk. unfold upd. destruct (Nat.eqb_spec j k) as [->|Hj].
+        -- rewrite Hkk. destruct (negb (k =? t)), (mgs_tbs s k), (mgs_stopped s k); cbn in *; congruence.
         -- rewrite H6. now rewrite orb_false_r.
       * constructor. exact H7.
     + repeat split; auto.
-      intros j. rewrite Hk, H6. destruct (Nat.eqb_spec j k) as [->|Hj].
-      * destruct (k <? k), (negb (k =? t)), (mgs_tbs s k), (mgs_stopped s k); cbn in *; congruence.
-      * now rewrite orb_false_r.
+      * intros j. rewrite Hk, H4. destruct (Nat.eqb_spec j k) as [->|Hj].
+        -- rewrite Hkk. destruct (negb (k =? t)), (mgs_tbs s k); cbn in *; congruence.
+        -- now rewrite orb_false_r.
+      * intros j. rewrite Hk, H6. destruct (Nat.eqb_spec j k) as [->|Hj].
+        -- rewrite Hkk. destruct (negb (k =? t)), (mgs_tbs s k), (mgs_stopped s k); cbn in *; congruence.
+        -- now rewrite orb_false_r.
 Qed.
 
 Lemma mstep_of n s t : mstep n s t (mg_step n s t).
@@ -150,7 +176,9 @@ Proof.
   destruct (th t) as [pc q f] eqn:Hth. cbn -[Nat.eqb].
   destruct pc; cbn -[Nat.eqb].
   - destruct en; cbn.
-    + now apply ms_load_ended.
+    + destruct (tbs t) eqn:Etb; cbn.
+      * now apply ms_load_ended.
+      * now apply ms_load_taken.
     + now apply ms_load_ok.
   - destruct st as [|st]; cbn.
     + now apply ms_start_first.
@@ -192,7 +220,7 @@ Proof.
     pose proof (stop_siblings_spec n t (St st ec true tbs stp th tr)) as H.
     cbv zeta in H.
     destruct (mg_stop_siblings n t (St st ec true tbs stp th tr)) as [st1 ec1 en1 tbs1 stp1 th1 tr1].
-    cbn -[Nat.ltb Nat.eqb] in *. destruct H as (-> & -> & -> & -> & -> & H6 & H7).
+    cbn -[Nat.ltb Nat.eqb] in *. destruct H as (-> & -> & -> & H4 & -> & H6 & H7).
     eapply ms_endedstore; eauto.
   - eapply ms_ret; eauto.
   - apply ms_fin. now rewrite Hth.
@@ -249,13 +277,16 @@ Section MergeInv.
   Definition TIc (st : nat) (en : bool) (j : nat) (tb sp : bool) (thr : mg_thread) : Prop :=
     mg_fin thr = fins j /\ (sp = true -> en = true) /\ (en = true -> 1 <= st) /\
     (n <= j -> mg_pcv thr = MgFinished) /\
+    (* the talkback of a member that is greeting or delivering is in its cell exactly as long as
+       nobody took it out to dispose the member: [tb = negb sp].  (Before the repair of merge.rs
+       the cell was filled only after [ended.load()], and never emptied by the ending party.) *)
     match mg_pcv thr with
-    | MgAtEndedLoad => tb = false
-    | MgAtStartInc => tb = true /\ (en = true -> sp = true)
-    | MgInGreet | MgInData => tb = true /\ (en = true -> sp = true) /\ 1 <= st
+    | MgAtEndedLoad => tb = negb sp /\ (en = true -> sp = true)
+    | MgAtStartInc => tb = negb sp /\ (en = true -> sp = true)
+    | MgInGreet | MgInData => tb = negb sp /\ (en = true -> sp = true) /\ 1 <= st
     | MgAtEndInc | MgInTerm =>
         tb = false /\ sp = false /\ mg_q thr = [] /\ mg_fin thr = FinTerm /\ 1 <= st
-    | MgAtEndedStore e => tb = true /\ mg_q thr = [] /\ mg_fin thr = FinErr e /\ 1 <= st
+    | MgAtEndedStore e => tb = negb sp /\ mg_q thr = [] /\ mg_fin thr = FinErr e /\ 1 <= st
     | MgInErr => mg_q thr = [] /\ mg_fin thr <> FinTerm /\ en = true /\ 1 <= st
     | MgFinished =>
         j < n -> 1 <= st /\ (en = false -> mg_q thr = []) /\
@@ -280,7 +311,7 @@ Section MergeInv.
     all: try match goal with H : _ = Th _ _ _ |- _ => rewrite H in Ht end; cbn in Ht.
     all: try match goal with H : origin _ _ _ _ _ _ |- _ => destruct H end.
     all: try match goal with H : _ \/ _ |- _ => destruct H; subst end.
-    all: try match goal with H : forall j, _ = _ |- _ => rewrite H end.
+    all: repeat match goal with H : forall j, _ = _ |- _ => rewrite H; clear H end.
     all: pw j t; cbn -[Nat.ltb Nat.eqb].
     all: try (revert Hj; match goal with |- context [match mg_pcv ?x with _ => _ end] => destruct (mg_pcv x) end; intros Hj).
     all: try solve [intuition (try lia; try congruence)].
@@ -310,9 +341,12 @@ Section MergeInv2.
   Proof.
     intros HTI HGE Hs. revert HTI HGE. destruct Hs; intros HTI HGE; auto.
     all: unfold GE in *; cbn in *; intros Hen; try discriminate.
-    11: { exists t, e. pose proof (HTI t) as Ht. unfold TIc in Ht; cbn in Ht. rewrite H in Ht; cbn in Ht.
-          rewrite upd_same; cbn. intuition; try congruence.
-          destruct (Nat.lt_ge_cases t n); auto. exfalso. intuition congruence. }
+    all: try match goal with
+         | Hst : ?th ?t = Th (MgAtEndedStore ?e) _ _ |- _ =>
+             solve [ exists t, e; pose proof (HTI t) as Ht; unfold TIc in Ht; cbn in Ht;
+                     rewrite Hst in Ht; cbn in Ht; rewrite upd_same; cbn; intuition; try congruence;
+                     destruct (Nat.lt_ge_cases t n); auto; exfalso; intuition congruence ]
+         end.
     all: destruct (HGE Hen) as (f0 & e0 & Hf & He & Hpc); exists f0, e0; split; [|split]; auto.
     all: pw f0 t; auto; cbn.
     all: match goal with H : _ = Th _ _ _ |- _ => rewrite H in Hpc end; cbn in Hpc.
@@ -670,8 +704,10 @@ Section MergeTrace.
   Proof.
     intros HTI HGE HGI HT Hs. revert HTI HGE HGI HT.
     destruct Hs; intros HTI HGE HGI HT; auto; unfold TRI in *; cbn [mgs_start mgs_endc mgs_ended mgs_th mgs_tr] in *.
-    - (* load, ended *)
+    - (* load, ended, talkback still in its cell: the member disposes itself *)
       eapply TR_silent; [apply TR_up; eauto|]. silent t H.
+    - (* load, ended, talkback already taken by the ending party *)
+      eapply TR_silent; [eauto|]. silent t H.
     - eapply TR_silent; [eauto|]. silent t H.
     - eapply TR_silent; [apply TR_dh; eauto|]. silent t H.
     - (* next: stopped *)
@@ -853,6 +889,21 @@ Section MergeTheorems.
     unfold mg_finished. now rewrite (H Ht).
   Qed.
 
+  (** a limit of the model, not a property of the code: the failing member's [ended.store(true)]
+      and its [swap(None)] of every sibling's cell are ONE step of [mg_step], so a member that
+      reads [ended = true] at MgAtEndedLoad always finds its cell already emptied and itself
+      disposed; the branch of [mg_step] in which the member disposes itself ([ms_load_ended])
+      is never taken from a reachable state.  In merge.rs the store and the swaps are separate
+      atomic accesses, and the window between them is exactly where that branch matters. *)
+  Theorem merge_threads_self_dispose_dead s t :
+    mg_reach n qs fins s -> mg_pcv (mgs_th s t) = MgAtEndedLoad -> mgs_ended s = true ->
+    mgs_tbs s t = false /\ mgs_stopped s t = true.
+  Proof.
+    intros Hr Hpc Hen. destruct (reach_inv Hr) as (H1 & _). pose proof (H1 t) as H.
+    unfold TIc in H. rewrite Hpc in H. destruct H as (_ & _ & _ & _ & Htb & Hsp).
+    rewrite Htb, (Hsp Hen). split; reflexivity.
+  Qed.
+
   (** 5. the full C18 check on every final state (it is enough that the members are finished) *)
   Theorem merge_threads_final_n s :
     mg_reach n qs fins s -> (forall t, t < n -> mg_finished s t = true) ->
@@ -995,6 +1046,7 @@ Print Assumptions merge_threads_completion_after_data.
 Print Assumptions merge_threads_no_term_during_data.
 Print Assumptions merge_threads_no_panic.
 Print Assumptions merge_threads_finished_ge.
+Print Assumptions merge_threads_self_dispose_dead.
 Print Assumptions merge_threads_final_n.
 Print Assumptions merge_threads_final.
 Print Assumptions merge_threads_final_err.
